@@ -24,6 +24,9 @@ def run(ctx):
     dsl.verify(ctx, repo, r, "C01.smc.sample", G.SAMPLE, G.h_sample_schedule,
                expect_covers=["conditional", "unconditional", "after-loop", "sample.loop.body", "sample.loop.exit"])
     ctx.trust(*r.assumed)
+    from contracts import c01_std as STD
+
+    dsl.verify(ctx, repo, STD.std_registry(), "C01.pg", STD.PG + ".sample_tree", STD.h_pg_sample_tree, expect_covers=["pg.sample_tree"])
     # L2: one arbitrary step of the retained path
     dsl.verify(ctx, repo, G.base_registry(), "C01.csmc.constrained_path", G.CSMC + "._get_constrained_path", G.h_constrained_path, expect_covers=G.PATH_COVERS)
     # L4: proposals faithful (imported from C08)
